@@ -962,7 +962,8 @@ pub fn run(ctx: &Ctx) -> i32 {
         ("C13", Tier::Quick) => ctx.scaled(if ctx.flavour == "checked" { 200 } else { 400 }),
         ("C13", Tier::Thorough) => ctx.scaled(3000),
         ("C01", Tier::Quick) => ctx.scaled(90),
-        ("C01", Tier::Thorough) => ctx.scaled(1500),
+        // 18 million signatures: an honest signing call that gives up is a 10^-6 event (rejection loops of > 60 rounds)
+        ("C01", Tier::Thorough) => ctx.scaled(45_000),
         _ => 0,
     };
     // degenerate stored keys: 12 signatures per history
@@ -971,16 +972,26 @@ pub fn run(ctx: &Ctx) -> i32 {
         ("C13", Tier::Thorough) => ctx.scaled(3000),
         _ => 0,
     };
-    let outs = run_indexed((n + n_short + n_ladder + n_bulk + n_lost) as usize, ctx.workers, |i| {
+    // key generation alone over many more seeds (an empty history generates two pairs): a seed on which key
+    // generation itself fails is a 10^-4 event for some parameter sets
+    let n_keyonly: u64 = match (prop, ctx.tier) {
+        ("C13", Tier::Quick) => ctx.scaled(90_000),
+        ("C13", Tier::Thorough) => ctx.scaled(1_500_000),
+        _ => 0,
+    };
+    let outs = run_indexed((n + n_short + n_ladder + n_bulk + n_lost + n_keyonly) as usize, ctx.workers, |i| {
         let short = (i as u64) >= n && (i as u64) < n + n_short;
         let ladder = (i as u64) >= n + n_short && (i as u64) < n + n_short + n_ladder;
         let bulk = (i as u64) >= n + n_short + n_ladder && (i as u64) < n + n_short + n_ladder + n_bulk;
-        let lost = (i as u64) >= n + n_short + n_ladder + n_bulk;
-        let mut p = Prng::for_run(ctx.seed, if lost { "world-lost-key" } else if ladder { "world-ladder" } else if short { "world-short" } else { "world" }, i as u64);
+        let lost = (i as u64) >= n + n_short + n_ladder + n_bulk && (i as u64) < n + n_short + n_ladder + n_bulk + n_lost;
+        let keyonly = (i as u64) >= n + n_short + n_ladder + n_bulk + n_lost;
+        let mut p = Prng::for_run(ctx.seed, if keyonly { "world-keygen" } else if lost { "world-lost-key" } else if ladder { "world-ladder" } else if short { "world-short" } else { "world" }, i as u64);
         let set = all[i % all.len()];
         let xi = p.array32();
         let xi_other = p.array32();
-        let ops = if lost {
+        let ops = if keyonly {
+            Vec::new()
+        } else if lost {
             gen_lost_key_history(&mut p, 12)
         } else if bulk {
             gen_bulk_history(&mut p, 400, if prop == "C01" { 1 } else { 0 })
@@ -1070,7 +1081,7 @@ pub fn run(ctx: &Ctx) -> i32 {
         samples,
         exhaustive: false,
         extra: json!({
-            "histories": n, "short_histories": n_short, "size_ladder_histories": n_ladder, "bulk_signing_histories": n_bulk, "degenerate_stored_key_histories": n_lost, "runs": n + n_short + n_ladder + n_bulk + n_lost,
+            "histories": n, "short_histories": n_short, "size_ladder_histories": n_ladder, "bulk_signing_histories": n_bulk, "degenerate_stored_key_histories": n_lost, "keygen_only_histories": n_keyonly, "runs": n + n_short + n_ladder + n_bulk + n_lost + n_keyonly,
             "runs_per_hour": if wall > 0.0 { (n as f64 / wall * 3600.0) as u64 } else { 0 },
             "operations": tot.ops, "signatures_made": tot.signs, "verifications": tot.verifies,
             "loads_from_store": tot.loads, "loads_rejected": tot.rejected_loads, "restarts": tot.restarts,
